@@ -122,6 +122,10 @@ def _stress_programs() -> dict[str, dict[str, Any]]:
     P["unused_nchw_input"]["kw"] = {"inputs_as_nchw": [0]}
     add("nchw_in_and_out", lambda x, y: (x * 2 + y, y), [("B", 4, 5, 3), (3,)], [(("B", 4, 5, 3), f32), ((3,), f32)])
     P["nchw_in_and_out"]["kw"] = {"inputs_as_nchw": [0], "outputs_as_nchw": [0]}
+    add("three_outputs_nchw_middle", lambda x, v: (x.sum(axis=(1, 2, 3)), x * 2 + v, v * 3), [(2, 4, 5, 3), (3,)], [((2, 4, 5, 3), f32), ((3,), f32)])
+    P["three_outputs_nchw_middle"]["kw"] = {"outputs_as_nchw": [1]}
+    add("two_images_nchw_last", lambda x: (x + 1, jnp.tanh(x)[:, :2]), [("B", 4, 5, 3)], [(("B", 4, 5, 3), f32)])
+    P["two_images_nchw_last"]["kw"] = {"outputs_as_nchw": [1], "inputs_as_nchw": [0]}
     add("with_param", None, [("B", 4)], [(("B", 4), f32)])
     return P
 
